@@ -13,7 +13,7 @@ ID = "C16"
 FUNCTIONS = ["xgcm.grid:Grid.set_metrics", "xgcm.grid:Grid.__init__", "xgcm.grid:Grid.get_metric"]
 BOUNDS = {
     "quick": {"inductive step": "pre-state = every valid registry for axis set (X,) over a pool of 5 variables on 3 positions (2 alternates) reached through the constructor or set_metrics; then one call naming 1-3 variables at pairwise different positions, overwrite True/False, compared with the same variables registered one at a time in every grouping",
-              "second axis set": "(X,Y) with 3 variables, pre-states of <= 2", "queries": "get_metric at every position with symbolic metric values"},
+              "second axis set": "(X,Y) with 5 variables on all 4 position combinations (1 alternate), pre-states of <= 2", "queries": "get_metric at every position with symbolic metric values"},
     "thorough": {"histories": "+ every history of <= 4 calls (1-2 variables each, overwrite T/F) over a pool of 4 for (X,) and 2 for (X,Y)"},
 }
 OUTSIDE = ["calls naming two variables at the same position", "pools larger than stated", "more than 2 axis sets"]
@@ -21,6 +21,9 @@ ASSUMPTIONS = ["metric values positive (for the get_metric comparison)"]
 POOL = {  # name -> (axes, dims)
     "dx_c": (("X",), ("xc",)), "dx_c2": (("X",), ("xc",)), "dx_l": (("X",), ("xg",)), "dx_l2": (("X",), ("xg",)), "dx_o": (("X",), ("xo",)),
     "a_cc": (("X", "Y"), ("yc", "xc")), "a_cc2": (("X", "Y"), ("yc", "xc")), "a_lc": (("X", "Y"), ("yc", "xg")),
+    # the remaining position combinations of the two-axis set: slots are (axis, position) pairs, so X-left/Y-centre and
+    # X-centre/Y-left are different slots although they use the same position words
+    "a_cl": (("X", "Y"), ("yg", "xc")), "a_ll": (("X", "Y"), ("yg", "xg")),
 }
 SIZES = {"xc": 2, "xg": 2, "xo": 3, "yc": 2, "yg": 2}
 
@@ -152,7 +155,7 @@ def queries(W, grid, label):
     """get_metric at every position; returns list of (tag, flat terms | exception name)"""
     out = []
     ds = grid._ds
-    for dims in (("xc",), ("xg",), ("xo",), ("yc", "xc"), ("yc", "xg"), ("yg", "xo")):
+    for dims in (("xc",), ("xg",), ("xo",), ("yc", "xc"), ("yc", "xg"), ("yg", "xc"), ("yg", "xg"), ("yg", "xo")):
         arr = xr.DataArray(np.zeros(tuple(SIZES[d] for d in dims)), dims=dims)
         for req in (("X",), ("X", "Y")):
             if "Y" in req and len(dims) == 1:
